@@ -34,9 +34,28 @@ package main
 //       load of the field.  A field that is written and never consulted is the
 //       same defect one refresh later.
 //
-// Not decided here: that the value read back is merged correctly (precedence
-// of the merged set over state, configuration and fetched keys is C09-R5's
-// business once the entries are in the Tombstones map).
+//   (c) (seeded change C09-w5g4c1) the revocations a retention field holds are
+//       accepted revocations too, and for them no flag of the current run is
+//       set: the field is overwritten with nil (or a fresh empty map) only
+//       behind the nil-error edge of writeTombstones — the one event that puts
+//       every retained entry on disk.  The nil-error edge of writeToTAFile is
+//       NOT enough here: the StateRevoked marker exists only for a retained key
+//       that still has a state entry, and a key retained from a run that started
+//       without a state file has none.  "Retain only when this run accepted a
+//       new revocation" (accepted by (a) for the revocation of this run) drops
+//       the set on the second consecutive failed round.
+//
+//   (d) (seeded change C09-w5g4c2) reading the field back is not enough: the
+//       loaded set is ranged over (or maps.Copy'd), and from the top of the loop
+//       body every path to the next iteration, out of the loop towards
+//       writeTombstones, or out of the helper holding the loop crosses the
+//       insertion `<run's Tombstones map>[range key] = …` or the edge on which
+//       that map already holds the key — so the insertion cannot hang on a
+//       lookup in the state map; the map is the one handed to writeTombstones,
+//       and every writeTombstones call is preceded by such a complete merge.
+//
+// Not decided here: precedence of the merged set over state, configuration and
+// fetched keys (C09-R5's business once the entries are in the Tombstones map).
 
 import (
 	"go/token"
@@ -55,12 +74,12 @@ func init() {
 		pd.Run = func(c *Ctx) { orig(c); extra(c) }
 		pd.Explanation += " " + explain
 	}
-	wrap("C09", c09R16, "R16 (F-C09-5): a revocation accepted from the network is never left in the locals of the refresh that accepted it — every path from the acceptance to AutoTA's return crosses a successful tombstone write, a successful state write, or a store of the in-memory tombstone set into the Resolver, and that retained set is read back before the next publication or tombstone write; clearing rootKeys alone only postpones the republication of the revoked key to the next refresh whose write succeeds.")
+	wrap("C09", c09R16, "R16 (F-C09-5): a revocation accepted from the network is never left in the locals of the refresh that accepted it — every path from the acceptance to AutoTA's return crosses a successful tombstone write, a successful state write, or a store of the in-memory tombstone set into the Resolver, and that retained set is read back before the next publication or tombstone write; clearing rootKeys alone only postpones the republication of the revoked key to the next refresh whose write succeeds. The retained set itself (W5): the field is emptied only behind writeTombstones err==nil (not on a flag of the current run, not when it is read), and every element read back is inserted into the map handed to writeTombstones — on every path through the merge loop, independent of the state map — before that call.")
 }
 
 func c09R16(c *Ctx) {
 	const R = "C09-R16"
-	c.Doc(R, "an accepted revocation outlives the refresh: from every StateRevoked store / Tombstones insertion downstream of the fetch, every path to AutoTA's return crosses writeTombstones err==nil, writeToTAFile err==nil, or a store of a non-nil tombstone set into a Resolver field (exempt: the false edge of a flag provably true by then); every such retention field is loaded in AutoTA before any non-nil rootKeys store and before writeTombstones")
+	c.Doc(R, "an accepted revocation outlives the refresh: from every StateRevoked store / Tombstones insertion downstream of the fetch, every path to AutoTA's return crosses writeTombstones err==nil, writeToTAFile err==nil, or a store of a non-nil tombstone set into a Resolver field (exempt: the false edge of a flag provably true by then); every such retention field is loaded in AutoTA before any non-nil rootKeys store and before writeTombstones, is overwritten with nil/an empty map only behind writeTombstones err==nil, and the loaded set is ranged over with every element inserted into (or already present in) the map handed to writeTombstones on every path through the loop body, before writeTombstones")
 	a := c09Anchors(c)
 	if a == nil {
 		return
@@ -94,28 +113,81 @@ func c09R16(c *Ctx) {
 		}
 		return fv
 	}
+	tombOK := OnFalse("tombErr", ResultOf(0, a.writeTomb))
+	// mayDrop: the value may be nil or a fresh map nothing is put into
+	mayDrop := func(v ssa.Value) bool {
+		ls := Origins(Desc(v), nil)
+		if len(ls) == 0 {
+			return true
+		}
+		for _, l := range ls {
+			if IsNilConst(l) {
+				return true
+			}
+			if mm, ok := l.V.(*ssa.MakeMap); ok && mm.Parent() != nil && len(c09MapUpdatesOf(mm.Parent(), mm)) == 0 {
+				return true
+			}
+		}
+		return false
+	}
+	// dropEdges: for a store whose value is selected by a phi (`keep := nil; if
+	// tombErr != nil { keep = tombstones }; r.f = keep`), the incoming edges that
+	// carry a possibly-empty value; ok=false when the value is not such a phi
+	type cfgEdge struct{ pred, succ *ssa.BasicBlock }
+	dropEdges := func(st *ssa.Store) (es []cfgEdge, ok bool) {
+		ph, isPhi := st.Val.(*ssa.Phi)
+		if !isPhi || ph.Block() == nil || len(ph.Edges) != len(ph.Block().Preds) {
+			return nil, false
+		}
+		for i, ed := range ph.Edges {
+			if mayDrop(ed) {
+				es = append(es, cfgEdge{ph.Block().Preds[i], ph.Block()})
+			}
+		}
+		return es, true
+	}
 	retains := func(in ssa.Instruction) bool {
 		if retField(in) == nil {
 			return false
 		}
-		ls := Origins(Desc(in.(*ssa.Store).Val), nil)
-		if len(ls) == 0 {
-			return false
+		st := in.(*ssa.Store)
+		if !mayDrop(st.Val) {
+			return true
 		}
-		for _, l := range ls {
-			if IsNilConst(l) {
-				return false // may store nil: does not retain on this path
+		// may store nil — but only over edges behind a successful tombstone write:
+		// on every path (a) walks (none crosses that edge) the store retains
+		if es, ok := dropEdges(st); ok && len(es) > 0 {
+			for _, e := range es {
+				if !c.edgeGuarded(e.pred, e.succ, []Barrier{tombOK}, fn) {
+					return false
+				}
+			}
+			for _, ed := range st.Val.(*ssa.Phi).Edges {
+				if !mayDrop(ed) {
+					return true // some edge carries the set
+				}
 			}
 		}
-		return true
+		return false
 	}
+	// a field counts as a retention field as soon as some store can put a
+	// tombstone set into it (even when the same store may also carry nil)
 	fields := map[*types.Var]bool{}
-	for _, in := range instrsInScope(fn, retains) {
+	for _, in := range instrsInScope(fn, func(in ssa.Instruction) bool {
+		if retField(in) == nil {
+			return false
+		}
+		for _, l := range Origins(Desc(in.(*ssa.Store).Val), nil) {
+			if !IsNilConst(l) {
+				return true
+			}
+		}
+		return false
+	}) {
 		fields[retField(in)] = true
 	}
 
 	// (a)
-	tombOK := OnFalse("tombErr", ResultOf(0, a.writeTomb))
 	stateOK := OnFalse("stateErr", ResultOf(0, a.writeTA))
 	retainBar := Barrier{Name: "Resolver.<Tombstones field> = <non-nil tombstone set>", Instr: retains}
 	fetch := instrsWhere(fn, isPlainCallTo(a.resolve))
@@ -183,5 +255,245 @@ func c09R16(c *Ctx) {
 		}
 	}
 	_ = n
+
+	c09R16Drop(c, a, R, fn, fields, retField, mayDrop, tombOK, func(st *ssa.Store) ([][2]*ssa.BasicBlock, bool) {
+		es, ok := dropEdges(st)
+		var out [][2]*ssa.BasicBlock
+		for _, e := range es {
+			out = append(out, [2]*ssa.BasicBlock{e.pred, e.succ})
+		}
+		return out, ok
+	})
+	c09R16Merge(c, a, R, fn, fields)
 	c.Floor(R, 1)
+}
+
+// (c) a retention field is emptied only behind writeTombstones err==nil.
+func c09R16Drop(c *Ctx, a *c09A, R string, fn *ssa.Function, fields map[*types.Var]bool, retField func(ssa.Instruction) *types.Var,
+	mayDrop func(ssa.Value) bool, tombOK Barrier, dropEdges func(*ssa.Store) ([][2]*ssa.BasicBlock, bool)) {
+	keyC := R + "|" + fnKey(fn) + "|retained revocations are dropped only behind a successful tombstone write"
+	bars := []Barrier{tombOK}
+	for _, in := range instrsInScope(fn, func(in ssa.Instruction) bool {
+		fv := retField(in)
+		return fv != nil && fields[fv] && mayDrop(in.(*ssa.Store).Val)
+	}) {
+		st := in.(*ssa.Store)
+		fv := retField(in)
+		why := "Resolver." + fv.Name() + " holds revocations an earlier refresh accepted and could not write; they are accepted revocations of THIS refresh too (merged back at its start) but no flag of this run is set for them. Emptying the field on a path that has not crossed writeTombstones err==nil forgets them: the state-file marker covers only a retained key that still has a state entry, and the next refresh rebuilds from disk/configuration, where the key is a Valid anchor"
+		if es, ok := dropEdges(st); ok {
+			bad := false
+			for _, e := range es {
+				if !c.edgeGuarded(e[0], e[1], bars, fn) {
+					bad = true
+					c.violation(R, keyC, instrPos(in), "the value stored into Resolver."+fv.Name()+" can be nil/empty without a successful tombstone write (unguarded incoming edge of the selecting phi): "+why)
+					break
+				}
+			}
+			if !bad {
+				c.ok(R, keyC, instrPos(in), "every nil/empty alternative of the stored value arrives over writeTombstones err==nil")
+			}
+			continue
+		}
+		if ug, tr := c.unguarded(in, bars, fn); ug {
+			c.violation(R, keyC, instrPos(in), "Resolver."+fv.Name()+" is emptied on a path that has not crossed writeTombstones err==nil: "+why+"; path "+trunc(tr, 400))
+		} else {
+			c.ok(R, keyC, instrPos(in), "Resolver."+fv.Name()+" is emptied only behind writeTombstones err==nil")
+		}
+	}
+}
+
+// (d) every element of the set read back from a retention field goes into the
+// run's tombstone set, before writeTombstones.
+func c09R16Merge(c *Ctx, a *c09A, R string, fn *ssa.Function, fields map[*types.Var]bool) {
+	keyD := R + "|" + fnKey(fn) + "|every retained revocation is put back into the run's tombstone set before writeTombstones"
+	// the run's tombstone set: what writeTombstones is handed
+	runLeaves := map[string]bool{}
+	writes := instrsWhere(fn, isPlainCallTo(a.writeTomb))
+	for _, w := range writes {
+		cc := callCommon(w)
+		if cc == nil {
+			continue
+		}
+		for _, arg := range cc.Args {
+			if c09NamedIs(arg.Type(), a.tombMapT) {
+				for _, l := range Origins(Desc(arg), nil) {
+					runLeaves[l.String()] = true
+				}
+			}
+		}
+	}
+	if len(runLeaves) == 0 {
+		c.unresolved(R, fnKey(fn)+"|tombstone set handed to writeTombstones", "no writeTombstones call with a Tombstones argument in AutoTA")
+		return
+	}
+	// leaves of v, a helper's parameters replaced by the arguments of its call sites
+	leavesIn := func(v ssa.Value, f *ssa.Function) []*Expr {
+		var out []*Expr
+		for _, l := range Origins(Desc(v), nil) {
+			if l.K == EParam && TopLevel(f) != fn && l.Idx >= 0 {
+				for _, args := range helperActivations(fn, TopLevel(f)) {
+					if l.Idx < len(args) && args[l.Idx] != nil {
+						out = append(out, Origins(args[l.Idx], nil)...)
+					}
+				}
+				continue
+			}
+			out = append(out, l)
+		}
+		return out
+	}
+	isRunMap := func(v ssa.Value, f *ssa.Function) bool {
+		if v == nil || !c09NamedIs(v.Type(), a.tombMapT) {
+			return false
+		}
+		ls := leavesIn(v, f)
+		if len(ls) == 0 {
+			return false
+		}
+		for _, l := range ls {
+			if !runLeaves[l.String()] {
+				return false
+			}
+		}
+		return true
+	}
+	sameVal := func(x, y ssa.Value) bool {
+		un := func(v ssa.Value) ssa.Value {
+			for {
+				switch t := v.(type) {
+				case *ssa.ChangeType:
+					v = t.X
+					continue
+				case *ssa.MakeInterface:
+					v = t.X
+					continue
+				}
+				return v
+			}
+		}
+		return x != nil && y != nil && un(x) == un(y)
+	}
+	for fv := range fields {
+		fv := fv
+		fromField := func(v ssa.Value, f *ssa.Function) bool {
+			ls := leavesIn(v, f)
+			if len(ls) == 0 {
+				return false
+			}
+			for _, l := range ls {
+				l = strip(l)
+				if l == nil || l.K != EField || l.Var != fv || l.Op != 0 {
+					return false
+				}
+			}
+			return true
+		}
+		var complete []ssa.Instruction // merge constructs that cover every element
+		nMerge := 0
+		for _, f := range scopeFuncs(fn) {
+			for _, b := range f.Blocks {
+				for _, in := range b.Instrs {
+					// maps.Copy(run's set, retained set)
+					if cl, ok := in.(*ssa.Call); ok {
+						if fo, _, _ := calleeObj(&cl.Call); fo != nil && fo.Pkg() != nil && fo.Pkg().Path() == "maps" && fo.Name() == "Copy" && len(cl.Call.Args) == 2 &&
+							isRunMap(cl.Call.Args[0], f) && fromField(cl.Call.Args[1], f) {
+							nMerge++
+							complete = append(complete, in)
+							c.ok(R, keyD, instrPos(in), "maps.Copy of Resolver."+fv.Name()+" into the set handed to writeTombstones")
+						}
+						continue
+					}
+					rg, ok := in.(*ssa.Range)
+					if !ok || !fromField(rg.X, f) || rg.Referrers() == nil {
+						continue
+					}
+					for _, ref := range *rg.Referrers() {
+						nx, ok := ref.(*ssa.Next)
+						if !ok || nx.Referrers() == nil {
+							continue
+						}
+						nMerge++
+						var okV, keyV ssa.Value
+						for _, r2 := range *nx.Referrers() {
+							if ex, ok := r2.(*ssa.Extract); ok {
+								switch ex.Index {
+								case 0:
+									okV = ex
+								case 1:
+									keyV = ex
+								}
+							}
+						}
+						blk := nx.Block()
+						iff, _ := blk.Instrs[len(blk.Instrs)-1].(*ssa.If)
+						if okV == nil || iff == nil || iff.Cond != okV || len(blk.Succs) != 2 {
+							c.undecided(R, keyD, instrPos(nx), "loop over Resolver."+fv.Name()+": the loop header is not the plain `next; if ok` shape")
+							continue
+						}
+						if keyV == nil {
+							c.violation(R, keyD, instrPos(nx), "the loop over the set read back from Resolver."+fv.Name()+" does not use the element's key (the key-material fingerprint): nothing can be inserted into the run's tombstone set under it, so a retained revocation whose key has no state entry is applied nowhere and the configured-anchor merge re-adds the key as Valid")
+							continue
+						}
+						insert := Barrier{Name: "<run's Tombstones>[range key] = …", Instr: func(i ssa.Instruction) bool {
+							mu, ok := i.(*ssa.MapUpdate)
+							return ok && sameVal(mu.Key, keyV) && isRunMap(mu.Map, i.Parent())
+						}}
+						present := OnTrue("run's Tombstones already holds the key", func(e *Expr) bool {
+							e = strip(e)
+							if e == nil {
+								return false
+							}
+							l := e
+							if e.K == EExtract && e.Idx == 1 && e.X != nil && e.X.K == ELookup && e.X.CommaOk {
+								l = e.X
+							} else if e.K != ELookup || e.CommaOk {
+								return false
+							}
+							if l.X == nil || l.X.V == nil || l.Y == nil || !sameVal(strip(l.Y).V, keyV) {
+								return false
+							}
+							return isRunMap(l.X.V, f)
+						})
+						r := reach([]Point{{blk.Succs[0], 0}}, []Barrier{insert, present}, func(i ssa.Instruction) bool { return i == ssa.Instruction(nx) })
+						var esc ssa.Instruction
+						how := ""
+						for _, t := range r.order {
+							switch {
+							case t == ssa.Instruction(nx):
+								esc, how = t, "the next iteration"
+							case TopLevel(f) == fn && isPlainCallTo(a.writeTomb)(t):
+								esc, how = t, "writeTombstones (leaving the loop early)"
+							case TopLevel(f) != fn && isReturn(t) && t.Parent() == f:
+								esc, how = t, "the return of the helper holding the loop"
+							}
+							if esc != nil {
+								break
+							}
+						}
+						if esc != nil {
+							c.violation(R, keyD, instrPos(nx), "an element of the set read back from Resolver."+fv.Name()+" can reach "+how+" without being inserted into the tombstone set handed to writeTombstones (and without that set already holding its key): a retained revocation whose key has no entry in the state map — state file missing or unreadable after the fail-closed clear — is then recorded nowhere in this run, the configured-anchor merge re-adds the key as Valid and the successful tombstone write licenses dropping the only record; path "+trunc(c.trail(r, esc), 400))
+							continue
+						}
+						complete = append(complete, rg)
+						c.ok(R, keyD, instrPos(nx), "every element of Resolver."+fv.Name()+" is inserted into (or already in) the set handed to writeTombstones")
+					}
+				}
+			}
+		}
+		if nMerge == 0 {
+			c.violation(R, keyD, token.NoPos, "the set read back from Resolver."+fv.Name()+" is never ranged over / copied into the run's tombstone set: the retained revocations are applied nowhere")
+			continue
+		}
+		if len(complete) == 0 {
+			continue // already reported
+		}
+		mergeBar := c09InstrBarrier("complete merge of Resolver."+fv.Name(), complete...)
+		for _, w := range writes {
+			if ug, tr := c.unguarded(w, []Barrier{mergeBar}, fn); ug {
+				c.violation(R, keyD, instrPos(w), "writeTombstones is reachable without the merge of Resolver."+fv.Name()+" into the set it writes: a successful write then licenses dropping revocations that are not in the file; path "+trunc(tr, 300))
+			} else {
+				c.ok(R, keyD, instrPos(w), "the merge of Resolver."+fv.Name()+" precedes this writeTombstones call on every path")
+			}
+		}
+	}
 }
